@@ -167,6 +167,44 @@ pub fn c12(o: &Oracle, thorough: bool, seed: u64, rep: &Report) {
     check_card(o, rep, "");
     rep.space("every ordered pair of leading characters over {all 35 symbols, '1', separators, 2-/3-/4-byte characters, NUL, U+10FFFF, a combining mark} x 9 tails", true, n);
 
+    // history: a real card token, then at once a token whose deciding characters are bit-neighbours of the
+    // real ones (one bit of the code point flipped, any of the 21 bits) -- and the other way round
+    {
+        use ckc_rs::{CKCNumber, PokerCard};
+        let mut pairs = 0u64;
+        let rs: Vec<char> = o.rank_syms.keys().map(|c| char::from_u32(*c).unwrap()).collect();
+        let ss: Vec<char> = o.suit_syms.keys().map(|c| char::from_u32(*c).unwrap()).collect();
+        for &r in &rs {
+            for &su in &ss {
+                let real = format!("{}{}", r, su);
+                for bit in 0..21u32 {
+                    for pos in 0..2 {
+                        let c0 = if pos == 0 { r } else { su };
+                        let n = match char::from_u32(c0 as u32 ^ (1 << bit)) {
+                            Some(c) => c,
+                            None => continue,
+                        };
+                        let twin = if pos == 0 { format!("{}{}", n, su) } else { format!("{}{}", r, n) };
+                        for order in 0..2 {
+                            let (first, second) = if order == 0 { (&real, &twin) } else { (&twin, &real) };
+                            let e = token_word(o, second);
+                            let got = guarded(|| {
+                                let _ = CKCNumber::from_index(first);
+                                CKCNumber::from_index(second)
+                            });
+                            pairs += 1;
+                            if got != Ok(e) {
+                                viol(rep, json!({"op":"parse_card","s":cps(second)}), json!({"ok": true, "res": hilo(e)}),
+                                     "parsing a token right after a token that differs from it in one bit of one code point gives the wrong card (the result depends on the call made before)");
+                            }
+                        }
+                    }
+                }
+            }
+        }
+        rep.eval(pairs * 2);
+        rep.space("history probe: every rank+suit token followed by / preceded by each of its one-bit code-point neighbours", true, pairs);
+    }
     // round trip: 52 cards x 2 renderings
     for c in &o.cards {
         for s in [format!("{}{}", c.rank_char, c.suit_char), format!("{}{}", c.rank_char, c.suit_letter)] {
